@@ -14,6 +14,8 @@ from formula import Evaluator, EnumVal, SInt, Unknown, Panic, ok as OK, err as E
 
 def run(ctx):
     syn = Syn(ctx.facts.syn())
+    ranged_rule(ctx, syn)
+    rowkind_rule(ctx, syn)
     prog = mirq.Program(ctx.facts.mir())
     ctx.not_decided += ["text of values (the format stores values as text)", "file handling and stand-off members", "identifiers that contain the ';' separator (outside the claim)"]
 
@@ -240,3 +242,177 @@ def run(ctx):
             r_sets.hit(v, sample={"column": v, "unconditional_appends_per_item": n})
             if n != 1:
                 ctx.report(r_sets, v, "the writer appends to %s %d times unconditionally per data item (must be exactly once): data ids and set ids no longer pair up by position, and the reader attributes data to the wrong set" % (v, n), w.file, lp["l"])
+
+
+# ---------------------------------------------------------------------- RANGED
+def ranged_rule(ctx, syn):
+    """the CSV row of a complex selector does not depend on whether its sub-selectors are stored range-compressed:
+    each of the eight column writers, evaluated from its syntax tree, gives the same text for a list with an
+    internal ranged selector and for the same list written out"""
+    from synq import unparse
+    from formula import Evaluator, Unknown, Panic, StructVal, EnumVal, some, is_some, ok
+    r = ctx.rule("C15.RANGED", "every column writer renders an internal ranged sub-selector exactly as the sub-selectors it stands for")
+    writers = [f for f in syn.fns if f.file == "src/csv.rs" and f.name.startswith("set_") and (f.self_ty or "").startswith("AnnotationCsv") and f.body is not None]
+    wmap = dict((f.name, f) for f in writers)
+    hooks = {}
+    hooks["is_complex"] = lambda ev, recv, args, node, env: isinstance(recv, StructVal) and recv.tyname == "Complex"
+    hooks["subselectors"] = lambda ev, recv, args, node, env: some(recv["subs"]) if isinstance(recv, StructVal) and recv.tyname == "Complex" else None
+
+    def kind(ev, recv, args, node, env):
+        if isinstance(recv, StructVal) and recv.tyname == "Complex":
+            return StructVal("Kind", {"s": recv["kind"]})
+        if isinstance(recv, EnumVal):
+            return StructVal("Kind", {"s": recv.name})
+        if isinstance(recv, StructVal):
+            return StructVal("Kind", {"s": recv.tyname})
+        return NotImplemented
+    hooks["kind"] = kind
+    hooks["as_str"] = lambda ev, recv, args, node, env: recv["s"] if isinstance(recv, StructVal) and recv.tyname == "Kind" else (recv if isinstance(recv, str) else NotImplemented)
+    hooks["as_ref"] = lambda ev, recv, args, node, env: recv
+
+    def expand(sel):
+        if isinstance(sel, StructVal) and sel.tyname == "RangedTextSelector":
+            return [EnumVal("TextSelector", [sel["resource"], h, EnumVal("BeginBegin")]) for h in range(sel["begin"], sel["end"] + 1)]
+        if isinstance(sel, StructVal) and sel.tyname == "RangedAnnotationSelector":
+            return [EnumVal("AnnotationSelector", [h, some(("res0", 100 + h, EnumVal("BeginBegin"))) if sel["with_text"] else None]) for h in range(sel["begin"], sel["end"] + 1)]
+        return [sel]
+
+    def h_iter(ev, recv, args, node, env):
+        if isinstance(recv, (StructVal, EnumVal)) and not (isinstance(recv, StructVal) and recv.tyname in ("Complex", "Kind")):
+            return expand(recv)
+        if isinstance(recv, list):
+            return recv
+        return NotImplemented
+    hooks["iter"] = h_iter
+    hooks["enumerate"] = lambda ev, recv, args, node, env: [(i, x) for i, x in enumerate(recv)] if isinstance(recv, list) else NotImplemented
+
+    def offset(ev, recv, args, node, env):
+        if isinstance(recv, EnumVal) and recv.name == "TextSelector":
+            return some(StructVal("Offset", {"begin": "b%s" % recv.args[1], "end": "e%s" % recv.args[1]}))
+        if isinstance(recv, EnumVal) and recv.name == "AnnotationSelector":
+            return some(StructVal("Offset", {"begin": "0", "end": "-0"})) if recv.args[1] is not None else None
+        if isinstance(recv, (EnumVal, StructVal)):
+            return None
+        return NotImplemented
+    hooks["offset"] = offset
+
+    def get(ev, recv, args, node, env):
+        if recv == "STORE":
+            return ok(StructVal("Item", {"id": "item%s" % (args[0],)}))
+        if isinstance(recv, StructVal) and recv.tyname == "Item":
+            return ok(StructVal("Item", {"id": "%s/%s" % (recv["id"], args[0])}))
+        return NotImplemented
+    hooks["get"] = get
+    hooks["expect"] = lambda ev, recv, args, node, env: recv[1] if isinstance(recv, tuple) and recv and recv[0] in ("ok", "some") else NotImplemented
+    hooks["id"] = lambda ev, recv, args, node, env: some(recv["id"]) if isinstance(recv, StructVal) and recv.tyname == "Item" else NotImplemented
+    hooks["temp_id"] = lambda ev, recv, args, node, env: ok("!" + recv["id"]) if isinstance(recv, StructVal) and recv.tyname == "Item" else NotImplemented
+    hooks["call:Cow::Borrowed"] = lambda ev, recv, args, node, env: args[0]
+    hooks["call:Cow::Owned"] = lambda ev, recv, args, node, env: args[0]
+    hooks["call:String::new"] = lambda ev, recv, args, node, env: ""
+
+    def fmt_(ev, node, env):
+        a = node.get("args") or []
+        out = a[0]["v"]
+        for x in a[1:]:
+            out = out.replace("{}", str(ev.eval(x, env)), 1)
+        return out
+    hooks["macro:format"] = fmt_
+
+    def push(ev, recv, args, node, env):
+        if isinstance(recv, str) and node["recv"].get("k") == "path" and len(node["recv"]["path"]) == 1:
+            env["__assign__"](node["recv"]["path"][0], recv + args[0])
+            return ()
+        return NotImplemented
+    hooks["push"] = push
+    hooks["push_str"] = push
+
+    def mkcall(name):
+        def h(ev, recv, args, node, env):
+            return run(name, args[0])
+        return h
+
+    def run(name, sel):
+        f = wmap[name]
+        params = [p["pat"].get("name") for p in f.sig["inputs"]]
+        return Evaluator(hooks=hooks).run_body(f.body, dict(zip(params, [sel, "STORE"])))
+    for name in wmap:
+        hooks["call:Self::" + name] = mkcall(name)
+    T = lambda res, h: EnumVal("TextSelector", [res, h, EnumVal("BeginBegin")])
+    A = lambda h, wt: EnumVal("AnnotationSelector", [h, some(("res0", 100 + h, EnumVal("BeginBegin"))) if wt else None])
+    cases = [
+        ("ranged-text", [StructVal("RangedTextSelector", {"resource": "res0", "begin": 3, "end": 5})]),
+        ("ranged-annotations", [StructVal("RangedAnnotationSelector", {"begin": 3, "end": 4, "with_text": False})]),
+        ("ranged-annotations-with-text", [StructVal("RangedAnnotationSelector", {"begin": 3, "end": 4, "with_text": True})]),
+        ("mixed", [T("res0", 1), StructVal("RangedTextSelector", {"resource": "res0", "begin": 3, "end": 4}), A(7, True), StructVal("RangedAnnotationSelector", {"begin": 8, "end": 9, "with_text": True}), EnumVal("ResourceSelector", ["res1"])]),
+    ]
+    n = 0
+    for wname, f in sorted(wmap.items()):
+        ctx.functions_analysed.add(f.qual)
+        for cname, subs in cases:
+            flat = [x for s_ in subs for x in expand(s_)]
+            n += 1
+            try:
+                a = run(wname, StructVal("Complex", {"kind": "MultiSelector", "subs": subs}))
+                b = run(wname, StructVal("Complex", {"kind": "MultiSelector", "subs": flat}))
+            except (Unknown, Panic) as e:
+                ctx.report(r, "%s:unevaluated" % wname, "column writer %s could not be evaluated (%s) on %s: that range compression does not change the row is not established" % (wname, e, cname), f.file, f.line)
+                break
+            r.hit("%s:%s" % (wname, cname), sample={"writer": wname, "case": cname, "compressed": a, "written_out": b} if cname == "mixed" else None)
+            if a != b:
+                ctx.report(r, "%s:%s" % (wname, cname), "column writer %s renders the sub-selectors %s as %r, but the same selectors written out (%s) as %r: a stored annotation whose sub-selectors were range-compressed is written differently and reloads with different targets" % (wname, [repr(x) for x in subs], a, cname, b), f.file, f.line)
+    ctx.floor(r, len(wmap), 8, "column writers")
+
+
+# ---------------------------------------------------------------------- ROWKIND
+def rowkind_rule(ctx, syn):
+    """dataset table: the writer emits key rows (no id, empty value) and data rows (always an id, any value,
+    including the empty string); the reader must classify every row the writer can emit as the writer meant it"""
+    from synq import find, unparse, strip, walk
+    from formula import Evaluator, Unknown, Panic, StructVal, some
+    r = ctx.rule("C15.ROWKIND", "the dataset reader tells key rows from data rows exactly as the writer emits them (a data row always has an id; its value may be empty)")
+    wr = [f for f in syn.fns if f.name == "to_csv_writer" and f.file == "src/csv.rs" and (f.self_ty or "") == "AnnotationDataSet"]
+    rd = [f for f in syn.fns if f.name == "from_csv_reader" and f.file == "src/csv.rs" and (f.self_ty or "") == "AnnotationDataSet"]
+    if len(wr) != 1 or len(rd) != 1:
+        ctx.anchor_missing(r, "AnnotationDataSet::to_csv_writer / from_csv_reader")
+        return
+    wr, rd = wr[0], rd[0]
+    ctx.functions_analysed.update([wr.qual, rd.qual])
+    # writer shapes
+    shapes = []
+    for lit in find(wr.body, "structlit"):
+        if lit["path"][-1] != "AnnotationDataCsv":
+            continue
+        idf = [f_["e"] for f_ in lit["fields"] if f_["name"] == "id"]
+        valf = [f_["e"] for f_ in lit["fields"] if f_["name"] == "value"]
+        if not idf or not valf:
+            continue
+        idsrc = unparse(strip(idf[0]))
+        has_id = None if idsrc == "None" else ("always" if "None" not in re.sub(r"ifletSome", "", idsrc.replace(" ", "")).replace("Some(", "") else "maybe")
+        empty_value = unparse(strip(valf[0])) in ("String::new()", '""', '"".to_string()')
+        shapes.append(("key" if idsrc == "None" and empty_value else "data", has_id, empty_value))
+    if len(shapes) != 2 or sorted(x[0] for x in shapes) != ["data", "key"]:
+        ctx.report(r, "writer-shapes", "the dataset writer no longer emits exactly one key-row literal (no id, empty value) and one data-row literal: %s" % shapes, wr.file, wr.line)
+        return
+    # reader condition
+    cond = None
+    for nd in find(rd.body, "if"):
+        if nd.get("else") is not None and "DataKey::new" in unparse(nd["then"]) and "build_insert_data" in unparse(nd["else"]):
+            cond = nd["cond"]
+    if cond is None:
+        ctx.anchor_missing(r, "key-row / data-row branch in from_csv_reader")
+        return
+    rows = [("key", None, "k", ""), ("data", "D1", "k", "v"), ("data", "D1", "k", ""), ("data", "!D0", "k", "")]
+    hooks = {"unwrap": lambda ev, recv, args, node, env: recv[1] if isinstance(recv, tuple) and recv and recv[0] == "some" else NotImplemented}
+    for kind, id_, key, value in rows:
+        rec = StructVal("AnnotationDataCsv", {"id": some(id_) if id_ is not None else None, "key": key, "value": value})
+        try:
+            got = Evaluator(hooks=hooks).eval(cond, {"record": rec})
+        except (Unknown, Panic) as e:
+            ctx.report(r, "unevaluated", "the row-kind test of the dataset reader could not be evaluated (%s)" % e, rd.file, cond.get("l"))
+            return
+        k2 = "%s(id=%s,value=%r)" % (kind, "yes" if id_ else "no", value)
+        r.hit(k2, sample={"row": k2, "reader_says_key_row": got})
+        if got != (kind == "key"):
+            ctx.report(r, k2, "the writer emits a %s row (id %s, key %r, value %r) and the reader takes it for a %s: %s" % (
+                kind, id_, key, value, "key declaration" if got else "data item",
+                "a data item whose value is the empty string is lost on reload (and annotations that use it fail to load)" if kind == "data" else "a declared key becomes a data item"), rd.file, cond.get("l"))
